@@ -24,6 +24,8 @@ RULE = ("invocations: {{#invoke:echo|fn|ARGS}} with ARGS of length 0-6 mixing po
         "heading line ('=='+text/calls+'=='), numeric names above 1000, names equal to the sentinel/fields of the Lua-side argument table "
         "(***nil***, _orig, ...), names containing a call ({{lc:N}}=v); 25% of the wrapped invocations just pass the wrapper's parameters "
         "on ({{#invoke:echo|args|{{{1}}}|k={{{n|}}}}}). preprocess: 12% of the fragments are heading-shaped as a whole. "
+        "expandTemplate: 30% of the argument tables have values containing '=' (k=v, URL with query, '=') inside the 1..n run, "
+        "mostly followed by further values, shown by a template that prints {{{1}}}..{{{5}}}. "
         "callParserFunction: 35% of the table forms carry named keys (#switch cases, #tag attributes) or 10-13 positional values. non-trivial = distinct (function, rendered call, wrapper depth) that "
         "reached the Lua side (echo output parsed back)")
 ASSUMPTIONS = ["Lua stand-ins for the absent Scribunto ustring/libraryUtil files (byte semantics; workloads are ASCII + a few UTF-8 letters passed through unchanged)",
@@ -95,7 +97,7 @@ def floors(tier):
             "counters.args.shape.value-expands-to-wikitext-syntax": 300, "counters.args.shape.heading-shaped-value": 300,
             "counters.args.shape.numeric-name>1000": 300, "counters.args.shape.name=args-table-internal": 300,
             "counters.args.shape.name-with-nested-call": 300, "counters.args.shape.parameters-passed-on": 300,
-            "counters.pre.heading-shaped": 300, "counters.cpf.table.named-key": 200, "counters.cpf.table.10+positional": 200}
+            "counters.et.positional-value-with-equals.followed": 300, "counters.pre.heading-shaped": 300, "counters.cpf.table.named-key": 200, "counters.cpf.table.10+positional": 200}
 
 
 def shards(tier, seed):
@@ -536,13 +538,36 @@ def case_pre(mon, rng, obs):
     return case, [], True
 
 
+# a template that shows which value arrived under which number
+LIBE = dict(LIBT, t5="⟨{{{1|-}}}¦{{{2|-}}}¦{{{3|-}}}¦{{{4|-}}}¦{{{5|-}}}¦{{{n|-}}}⟩")
+EQVALS = ["k=v", "a=", "=", "=b", "x==y", "http://e.org/?q=1&r=2", "1=z", "n=q r"]
+
+
 def case_et(mon, rng, obs):
-    mon.set_templates(LIBT)
+    mon.set_templates(LIBE)
     title = rng.choice(list(LIBT) + ["missing", "Template:ta", " tb"])
     npos = rng.randint(0, 3)
     args = {}
     for i in range(npos):
         args[i + 1] = plain(rng)
+    eqshape = rng.random() < 0.3
+    if eqshape:
+        # values of the 1..n run that contain '=': written positionally they would be read as name=value, so the
+        # equivalent call numbers them explicitly (i=value).  A later value cannot be written positionally either (the
+        # unnamed counter of the call would give it a lower number), so from the first such value on every value
+        # carries its number; those values have no edge blanks (a numbered argument is trimmed, the table value is not)
+        title = rng.choice(["t5", "t5", "t5", "tb", "tc", "ta"])
+        npos = rng.randint(2, 5)
+        first = rng.randint(1, npos)
+        args = {}
+        for i in range(1, npos + 1):
+            if i < first:
+                args[i] = plain(rng)
+            elif i == first or rng.random() < 0.25:
+                args[i] = rng.choice(EQVALS)
+            else:
+                args[i] = plain(rng, edge=False).strip() or "w"
+        obs.count("et.positional-value-with-equals" + (".followed" if first < npos else ".last"))
     for k in rng.sample(["n", "k k", "5", "m"], rng.randint(0, 2)):
         args[int(k) if k.isdigit() else k] = plain(rng)
     dm = mon.data_module({"title": title, "args": args})
@@ -551,7 +576,7 @@ def case_et(mon, rng, obs):
     parts = [title]
     n = 1
     rest = dict(args)
-    while n in rest:
+    while n in rest and "=" not in rest[n]:
         parts.append(rest.pop(n))
         n += 1
     for k, v in rest.items():
@@ -569,6 +594,8 @@ def case_et(mon, rng, obs):
     if m.group(1) != exp:
         posedge = any(isinstance(k, int) and k <= npos and v != v.strip() for k, v in args.items())
         cls = "/positional-value-with-edge-blanks" if posedge else ""
+        if eqshape:
+            cls = "/positional-value-with-equals-sign" + cls
         if any(isinstance(k, int) and k <= npos and v.endswith("\n") for k, v in args.items()):
             cls += "/class=pos-trailing-newline"
         return case, [("expandTemplate!=wikitext" + cls, "lua=%r wikitext %r -> %r" % (m.group(1), wt, exp))], True
@@ -693,7 +720,7 @@ def replay(case):
         out["lua"] = mon.expand("«{{#invoke:echo|%s|%s}}»" % (case["fn"], dm))
         out["expand"] = mon.expand(case["text"])
     elif k == "et":
-        mon.set_templates(LIBT)
+        mon.set_templates(LIBE)
         args = {(int(a) if a.isdigit() else a): v for a, v in case["args"].items()}
         dm = mon.data_module({"title": case["title"], "args": args})
         out["lua"] = mon.expand("«{{#invoke:echo|et|%s}}»" % dm)
